@@ -48,6 +48,7 @@ pub fn format_ok_str(name: &str, s: &str) -> bool {
         "lower" => s == s.to_lowercase(),
         "len3" => s.encode_utf16().count() >= 3,
         "aprefix" => s.starts_with('a'),
+        "code" => s.encode_utf16().count() <= 4,
         _ => false,
     }
 }
@@ -55,6 +56,7 @@ pub fn format_ok_num(name: &str, f: f64) -> bool {
     match name {
         "nonneg" => f >= 0.0,
         "int" => f.is_finite() && f == f.trunc(),
+        "code" => f < 100.0,
         _ => false,
     }
 }
